@@ -87,6 +87,7 @@ type FnCtx struct {
 	usedLemmas map[string]bool
 	inlineLoops map[*ssa.BasicBlock]*loopInfo
 	concrete bool
+	assumedClauses map[string]bool
 	entryInfo *EntryInfo
 }
 
@@ -98,7 +99,7 @@ func (e *Engine) newFnCtx(fn *ssa.Function, ct *Contract) *FnCtx {
 		ordinals: map[ssa.Instruction]int{}, callOrd: map[ssa.Instruction]string{},
 		cellsByName: map[string][]*Cell{}, allCells: map[*ssa.Alloc]*Cell{}, maxPaths: 6000,
 		usedAssumed: map[string]bool{}, usedIntrinsics: map[string]bool{}, numbered: map[*ssa.Function]bool{},
-		calledKeys: map[string]bool{}, usedGlobals: map[string]bool{}, usedLemmas: map[string]bool{}, inlineLoops: map[*ssa.BasicBlock]*loopInfo{}}
+		calledKeys: map[string]bool{}, usedGlobals: map[string]bool{}, usedLemmas: map[string]bool{}, assumedClauses: map[string]bool{}, inlineLoops: map[*ssa.BasicBlock]*loopInfo{}}
 	return fc
 }
 
@@ -500,6 +501,10 @@ func (fc *FnCtx) atReturn(s *State, rets []Val) {
 		}
 	}
 	for _, c := range fc.ct.Ensures {
+		if c.Assumed {
+			fc.assumedClauses[fmt.Sprintf("%s.ensures[%s]", fc.key, c.Label)] = true
+			continue
+		}
 		g := fc.evalSpecBool(env, c.E)
 		fc.oblige(s, fmt.Sprintf("%s.ensures[%s]", fc.key, c.Label), "ensures", c.Props, c.Text, g, "return")
 	}
